@@ -612,9 +612,9 @@ def run():
                       extra={'direct_oracles_evaluated': n_or, 'exact_cases': len(cases), 'real_objects': len(ocases)},
                       uncovered=['convergence with the stated order (asymptotic statement)',
                                  'floating-point rounding and the conditioning of the Vandermonde solve (bounded a posteriori on the sampled runs)',
-                                 'the theta-spline interpolates the potential (C08)',
+                                 'non-singularity of the collocation matrix stays C08\'s per-instance certificate in c13_interp_then_constants_zero',
                                  'bz(r) = 1/sqrt(1+(r iota/R0)^2) and the local/global radius index mapping (C05, defect 9.5 repaired)',
-                                 'functions constant along field lines for iota != 0 are covered only through the hypothesis of c13_aligned_zero (equal values met along the stencil)'])
+                                 'field-aligned potentials for iota != 0: proved for the representable family (uniform-cubic theta space, twist per z cell a whole number c of theta cells, n | c*nz: c13_aligned_family_zero, c13_cu_shift_eval); shift invariance for general degrees / non-uniform spaces not proved; for other twists no non-constant field-aligned potential is representable plane by plane, c13_aligned_zero then covers approximations through its hypothesis only'])
 
 
 def replay(path):
